@@ -418,7 +418,7 @@ pub fn models(tier: Tier, seed: u64) -> Vec<Box<dyn DynModel>> {
 }
 
 pub fn describe(tier: Tier, r: &mut Report) {
-    r.rule = "initial states = honest ciphertexts (scheme x 2 keys x message lengths, sealed under the entropy seam); actions: transport through each codec; on the 5- and 33-byte tamper bases: every single-bit flip of the serialized ciphertext, every truncation of v, v + 1 byte, both other labels, u / w in {+G, 2x, negate, other honest point, identity}, 4 wrong keys; thorough adds every pair of bit flips inside v (with its length prefix) and the scheme byte of the 5-byte ciphertext. Oracle is component level: an undecodable mutant is fine; a mutant that decodes to an equal value must behave unchanged; any other must be invalid and decrypt to nothing through both decrypt paths; the reference open must agree on every decodable ciphertext".into();
+    r.rule = "initial states = honest ciphertexts (scheme x 2 keys x message lengths, sealed under the entropy seam); actions: transport through each codec; on the 5- and 33-byte tamper bases: every single-bit flip of the serialized ciphertext, every truncation of v, v + 1 byte, both other labels, u / w in {+G, 2x, negate, other honest point, identity}, 4 wrong keys; two data-dependent 5-byte bases per key whose entropy answer is searched so that v ends in / starts with 0x00 (all truncations, extensions and bit flips of v); thorough adds every pair of bit flips inside v (with its length prefix) and the scheme byte of the 5-byte ciphertext. Oracle is component level: an undecodable mutant is fine; a mutant that decodes to an equal value must behave unchanged; any other must be invalid and decrypt to nothing through both decrypt paths; the reference open must agree on every decodable ciphertext".into();
     r.deviation_bound_completed = if tier.thorough() { "2 (bit flip pairs in v / scheme byte), 1 elsewhere".into() } else { "1".into() };
     r.alphabet.insert("lengths".into(), serde_json::json!(lens_for(tier)));
 }
